@@ -103,7 +103,8 @@ pub fn free_port() -> u16 {
     // 40 disjoint ranges of 1000 ports: concurrently running check processes have neighbouring pids
     let base = 20000 + (std::process::id() % 40) * 1000;
     for _ in 0..4096 {
-        let k = NEXT.fetch_add(1, Ordering::SeqCst);
+        // processes that share a range (pid equal modulo 40) start at different offsets in it
+        let k = NEXT.fetch_add(1, Ordering::SeqCst) + (std::process::id() / 40) * 137;
         let p = (base + (k % 1000)) as u16;
         if p >= 20000 && std::net::TcpListener::bind(("127.0.0.1", p)).is_ok() {
             return p;
